@@ -239,6 +239,30 @@ func init() {
 		}, sp
 	}})
 
+	// Q11: two resources of different patterns that share a group through the same ${tag} template (tagged
+	// configurations; otherwise two plain resources).
+	reg(&Scenario{Name: "Q11", Make: func(cfg Cfg) (func(), *Spec) {
+		sp := &Spec{MustRun: []string{"R1", "R2", "W1"}, Closes: -1}
+		return func() {
+			w := NewWorld(cfg)
+			other := "t.b"
+			if cfg.Group == "tagged" {
+				other = "t.c.z.1"
+			}
+			sdone := make(chan struct{}, 1)
+			w.StartServe(sdone)
+			done := make(chan struct{}, 4)
+			spawn("N", done, func() {
+				w.Req("get."+w.A("1"), "R1")
+				w.Req("get."+other, "R2")
+			})
+			spawn("P", done, func() { w.With("W1", other) })
+			join(done, 2)
+			vsched.AwaitQuiescence()
+			vsched.Emit(Mon, "quiesced")
+		}, sp
+	}})
+
 	// Q2 idle->busy: a group drains completely, then is hit again by P and N concurrently.
 	reg(&Scenario{Name: "Q2", Make: func(cfg Cfg) (func(), *Spec) {
 		sp := &Spec{MustRun: []string{"W0", "R1", "W1"}, Closes: -1, Order: [][2]string{{"W0", "R1"}, {"W0", "W1"}}}
